@@ -48,6 +48,10 @@ NestC(c1) == {Cond(c1, Cond(c2, X, N("2")), e3) : c2 \in TinyBool, e3 \in {Y, Co
          \cup {Cond(c1, e3, Cond(c2, X, N("2"))) : c2 \in TinyBool, e3 \in {Y, Cond(Rel("Gt", Y, N("0")), A, N("3"))}}
          \cup {Bn(o, Cond(c1, X, N("2")), Cond(c2, Y, A)) : o \in {"add","mul","sub","div"}, c2 \in TinyBool}
          \cup {Fn(f, Cond(c1, X, N("2"))) : f \in {"exp","abs","floor","sqrt"}}
+         \* nested conditionals whose compound condition may be contradictory or tautological
+         \cup {Bn("add", N("2"), Cond(And(<<c1, c2>>), X, N("0.5"))) : c2 \in TinyBool}
+         \cup {Bn("mul", Cond(Or(<<c1, c2>>), X, Y), N("2")) : c2 \in TinyBool}
+         \cup {Neg(Cond(Or(<<Not(c1), c2>>), N("2"), Y)) : c2 \in TinyBool}
 CC == {CCond(r, l, rr, e1, e2, s) : r \in {"Lt","Gt","Le","Ge"}, l \in {X, Y}, rr \in {A, N("1.5"), Bn("mul", A, N("0.5"))},
                                      e1 \in {X, N("2")}, e2 \in {Y, N("0.5")}, s \in {N("0.5"), N("2"), A}}
 TimeS == {T, Tm, Bn("mul", T, X), Bn("add", Tm, N("2")), Cond(Rel("Gt", T, N("1")), X, Y), Fn("exp", Neg(Tm)),
